@@ -108,7 +108,7 @@ PROPS = {
         "one evaluation = one seeded world (router, token types, policy) running 40-80 actor steps: obtain tokens, exchange (subject kind x actor kind x declared type x requested type x scopes x caller x presentation), "
         "revoke, logout, clock jumps, policy changes (default type, veto, impersonation, dropped scopes). non-trivial = at least one exchange succeeded; distinct = distinct step history",
         {"runs": 40, "wall": 90}, {"runs": 8000, "wall": 1200},
-        {"quick": {"_runs": 400, "clock-at-a-token's-expiry-instant": 100, "exchange-success": 300, "veto-at-ValidateTokenExchangeRequest": 20, "veto-at-CreateTokenExchangeRequest": 15, "veto-at-GetPrivateClaimsFromTokenExchangeRequest": 5, "veto-at-SetUserinfoFromTokenExchangeRequest": 3, "act-chain-decided": 3}, "thorough": {"_runs": 20000}},
+        {"quick": {"_runs": 400, "clock-at-a-token's-expiry-instant": 100, "exchange-success": 300, "veto-at-ValidateTokenExchangeRequest": 20, "veto-at-CreateTokenExchangeRequest": 15, "veto-at-GetPrivateClaimsFromTokenExchangeRequest": 5, "veto-at-SetUserinfoFromTokenExchangeRequest": 3, "act-chain-decided": 3, "exchange-with-third-party-token-success": 5}, "thorough": {"_runs": 20000}},
         "Seeded exploration; every 2xx exchange implies an authenticated, registered client, live subject/actor tokens of the declared type, no veto, a non-empty token of the declared kind that is live at the provider and carries the subject, scopes and actor the journal shows the policy decided.",
         "DESIGN.md section 4 C15"),
     "C09": dict(flow(
@@ -150,7 +150,7 @@ PROPS = {
         "one evaluation = one seeded world (router, algorithm, per-client post-logout registrations and globs, id-token lifetimes) running 40-80 steps: obtain id tokens, advance the clock, logout with hint kind x client_id x post_logout_redirect_uri kind x state x GET/POST. "
         "non-trivial = at least one logout redirected and one was rejected",
         {"runs": 40, "wall": 90}, {"runs": 8000, "wall": 1200},
-        {"quick": {"_runs": 400, "separate-access-token-keyset": 80, "separate-hint-keyset": 40, "hints-signed-by-the-hint-keyset-key": 100, "logout-redirect": 2000, "logout-rejected": 4000, "redirect-to-registered": 800, "expired-hint-accepted": 300, "hints-of-other-tenant": 300}, "thorough": {"_runs": 20000}},
+        {"quick": {"_runs": 400, "separate-access-token-keyset": 80, "logout-through-the-storage's-request-capability": 300, "separate-hint-keyset": 40, "hints-signed-by-the-hint-keyset-key": 100, "logout-redirect": 2000, "logout-rejected": 4000, "redirect-to-registered": 800, "expired-hint-accepted": 300, "hints-of-other-tenant": 300}, "thorough": {"_runs": 20000}},
         "Seeded exploration; a redirect goes to the default URI or to a URI registered for the client proven by a validly signed hint (or client_id); invalid hints and contradictions are rejected; expired valid hints are accepted; the journal shows the hint's subject and client being terminated; state arrives unchanged.",
         "DESIGN.md section 4 C18"),
     "C17": flow(
